@@ -19,7 +19,7 @@ def translate(check):
         sites = json.loads(out[out.index("["):])
     except ValueError:
         return False, "cannot parse site list: " + out[-300:]
-    keys = ["%s|%s|%s|%s|%d" % (s["kind"], s["pkg"], s["func"], s["expr"], s["n"]) for s in sites
+    keys = ["%s|%s|%s|%s|%d|%s" % (s["kind"], s["pkg"], s["func"], s["expr"], s["n"], s.get("shape", "")) for s in sites
             if "acceptance" not in s["pkg"]]
     gdir = os.path.join(verif.BUILD, "gen", "C03" + verif.ALT)
     os.makedirs(gdir, exist_ok=True)
